@@ -173,6 +173,13 @@ class Program:
                     self.inlined.setdefault("<renamed back>", []).extend(rn)
             except Exception as e:
                 self.expansion_errors.append(f"<renames>: {type(e).__name__}: {e}")
+            # (1b) locals that merely name an attribute bound once in __init__
+            try:
+                al = inline.attribute_aliases({n: m.tree for n, m in self.modules.items()})
+                if al:
+                    self.inlined.setdefault("<attribute aliases>", []).extend(al)
+            except Exception as e:
+                self.expansion_errors.append(f"<aliases>: {type(e).__name__}: {e}")
             # (2) per module: constants, tables, helper calls
             for name, m in self.modules.items():
                 try:
